@@ -136,6 +136,11 @@ fn conjectured_grid(run: &Run, template: &Proof) {
             for &grind in &grinds {
                 for ext in 1..=3u32 {
                     for &log_n in &logs {
+                        // contexts beyond the documented limit (LDE domain of at most 2^32 - 1 points)
+                        // cannot be constructed or decoded
+                        if log_n + blowup_log > 31 {
+                            continue;
+                        }
                         let p = P { q, blowup: 1 << blowup_log, grind, ext, log_n, field, fold: 4, rem: 7 };
                         let pr = proof_for(&p, template);
                         let mut prev = 0;
@@ -187,6 +192,15 @@ fn conjectured_grid(run: &Run, template: &Proof) {
 }
 
 fn rand_params(rng: &mut Rng) -> P {
+    loop {
+        let p = rand_params_any(rng);
+        if p.log_n + p.blowup.trailing_zeros() <= 31 {
+            return p;
+        }
+    }
+}
+
+fn rand_params_any(rng: &mut Rng) -> P {
     P {
         q: if rng.chance(1, 8) { [1, 2, 254, 255][rng.usize(4)] } else { rng.range(1, 255) },
         blowup: 1 << rng.range(1, 7),
@@ -347,7 +361,7 @@ fn main() {
     policy(&run, &template);
     let exhaustive = true;
     run.finish(Finish {
-        rule: "conjectured estimate: grid queries 1..255 x blowup 2..128 x grinding 0..32 x extension degree 1..3 x log2(trace length) 3..32 x field bits {62,64,128} x collision resistance {96,97,110,124,127,128}: equals the integer re-implementation of the documented formula, monotone to the adjacent grid point in queries/grinding/extension/collision resistance; proven estimate: random parameter sets with the same four monotonicity directions, independence from FRI layout; policy: thresholds level-1/level/level+1 for both estimates and option sets with/without the proof's options, all six hashers + stub hashers. distinct = distinct parameter set".into(),
+        rule: "conjectured estimate: grid queries 1..255 x blowup 2..128 x grinding 0..32 x extension degree 1..3 x log2(trace length) 3..32 (LDE domain <= 2^31, the limit a proof context admits) x field bits {62,64,128} x collision resistance {96,97,110,124,127,128}: equals the integer re-implementation of the documented formula, monotone to the adjacent grid point in queries/grinding/extension/collision resistance; proven estimate: random parameter sets with the same four monotonicity directions, independence from FRI layout; policy: thresholds level-1/level/level+1 for both estimates and option sets with/without the proof's options, all six hashers + stub hashers. distinct = distinct parameter set".into(),
         assumptions: vec![
             "proof contexts are decoded from hand-built bytes (Context::read_from) so that any field and trace lengths up to 2^32 are reachable without running a prover".into(),
             "policy is exercised through AcceptableOptions::validate, the function verify() calls first; end-to-end verify with thresholds is part of C01/C02 shapes".into(),
